@@ -1,7 +1,7 @@
 (* Correspondence obligations for C13: the model's per-thread results and parse counts on the
    (configuration, program, schedule) triples that the harness drove the real goroutines through. *)
 From Coq Require Import ZArith NArith Arith Bool List.
-From PcoreV Require Import Model.Base Model.Conc Model.ConcLazy Model.ConcReg Model.ConcDisc.
+From PcoreV Require Import Model.Base Model.Conc Model.ConcLazy Model.ConcReg Model.ConcDisc Model.ConcNs Model.ConcInit.
 Import ListNotations.
 
 Definition val_eqb (a b : val) : bool :=
@@ -120,3 +120,39 @@ Definition disc_check (c : disc_case) : bool :=
   let st := dexec CbOutside cfg p s in
   dall_done st (length p) && Nat.eqb (length o) (length p) && disc_threads (ds_log st) 0 o.
 Definition disc_mismatches (cs : list disc_case) : list N := failing disc_check cs.
+
+
+(* ---- a file based loader whose SmartPath serves several namespaces (Model/ConcNs.v, the code: KeyMapped): per thread
+   the results in program order (a value by the number of the instantiation that made it) and the files instantiated *)
+Definition nres_eqb (a b : nres) : bool :=
+  match a, b with
+  | NFound x, NFound y => option_eqb Nat.eqb x y
+  | NBool x, NBool y => Bool.eqb x y
+  | NFileErr, NFileErr => true
+  | NErr, NErr => true
+  | NFault, NFault => true
+  | _, _ => false
+  end.
+Definition nobs := (list nres * nat)%type.
+Definition ns_case := (ncfg * nprog * list nat * list nobs)%type.
+Fixpoint ns_threads (log : list nevent) (t : nat) (os : list nobs) : bool :=
+  match os with
+  | [] => true
+  | o :: os' => list_eqb nres_eqb (nresults_of t log) (fst o) && Nat.eqb (nparses_by t log) (snd o) && ns_threads log (S t) os'
+  end.
+Definition ns_check (c : ns_case) : bool :=
+  let '(cfg, p, s, o) := c in
+  let st := nexec KeyMapped cfg p s in
+  nall_done st (length p) && Nat.eqb (length o) (length p) && ns_threads (ns_log st) 0 o.
+Definition ns_mismatches (cs : list ns_case) : list N := failing ns_check cs.
+
+
+(* ---- the first initialization of the runtime entered by n goroutines of a fresh process (Model/ConcInit.v, the code:
+   ILocked): the goroutine that the harness held at the yield point is thread 0; per thread: did it return while
+   thread 0 was held, did it get the sequential answers *)
+Definition init_case := (nat * nat * list (bool * bool))%type.
+Definition bb_eqb (a b : bool * bool) : bool := Bool.eqb (fst a) (fst b) && Bool.eqb (snd a) (snd b).
+Definition init_check (c : init_case) : bool :=
+  let '(n, site, o) := c in
+  Nat.leb 2 n && Nat.leb site 1 && list_eqb bb_eqb (park_obs ILocked n site) o.
+Definition init_mismatches (cs : list init_case) : list N := failing init_check cs.
